@@ -124,6 +124,8 @@ pub async fn run_session(context: SessionContext) {
                 session.set_seq(seq);
                 emit_events(tool_events, &sender, &events, &event_log).await;
                 if let (Some(link), Some(side_effects)) = (continuity_run.as_ref(), side_effects) {
+                    #[cfg(rip_verif)]
+                    rip_kernel::verif::point("session.before_side_effects", &runtime_session_id);
                     let _ = continuities.append_tool_side_effects(
                         link,
                         &runtime_session_id,
@@ -1353,6 +1355,8 @@ async fn run_openresponses_agent_loop(
                 let output_value = tool_events_to_function_call_output(&call.name, &tool_events);
                 sink.emit_all(tool_events).await;
                 if let (Some(link), Some(side_effects)) = (continuity_run, side_effects) {
+                    #[cfg(rip_verif)]
+                    rip_kernel::verif::point("session.before_side_effects", session_id);
                     let _ = continuities.append_tool_side_effects(link, session_id, side_effects);
                 }
                 output_value
@@ -1617,7 +1621,13 @@ async fn emit_event(
     buffer: &Arc<Mutex<Vec<Event>>>,
     event_log: &EventLog,
 ) {
+    #[cfg(rip_verif)]
+    let verif_ctx = format!("{}:{}", event.session_id, event.seq);
+    #[cfg(rip_verif)]
+    rip_kernel::verif::point("emit.before_publish", &verif_ctx);
     let _ = sender.send(event.clone());
+    #[cfg(rip_verif)]
+    rip_kernel::verif::point("emit.after_publish", &verif_ctx);
     let mut guard = buffer.lock().await;
     guard.push(event.clone());
     let _ = event_log.append(&event);
